@@ -356,6 +356,29 @@ func c10Run(c *Ctx) {
 		cs := &Case{Gen: "cli-readback", Mode: "cli", Src: Print(lit) + "\n"}
 		c10Judge(c, cs)
 	}
+	// 6. end to end: a literal that is rejected rejects the program wherever it stands, also where
+	// the remaining tokens would form a program on their own; a literal is only digits and one point,
+	// so any other code point between digits ends it (through the whole pipeline and the binary)
+	huge := "1" + strings.Repeat("0", 309)
+	lits := []string{huge, BanglaDigits(huge, nil), mask(huge, 0x5555555555555555), "2" + strings.Repeat("9", 400) + ".5", strings.Repeat("\u09ef", 310)}
+	for _, cp := range []rune{0x200c, 0x200d, 0x200b, 0x2060, 0xfeff, 0xad, 0xa0, 0x200e, 0x202f, 0x2009, 0x61c, 0x34f, 0x180e, 0x9bc, 0x9cd, 0x981, 0x301, 0x5f, 0x27, 0x2c, 0x660, 0x966, 0xff11, 0x2024, 0xb7, 0x9f4, 0x9e5} {
+		for _, sh := range []string{"1%s2", "\u09e7%s\u09e8\u09e6", "1.%s5", "1%s.5", "\u09e9.%s\u09e7\u09ea", "12%s", "%s12"} {
+			lits = append(lits, fmt.Sprintf(sh, string(cp)))
+		}
+	}
+	forms := []string{Print("%s"), Var("v", "%s") + " " + Print("v * 20"), Print(`"a"`) + "\n" + Print(BI("len", "[%s]")), Fun("f", "", " "+Ret("%s")+" ") + "\n" + Print(`"b"`) + "\n" + Print("f()"),
+		Fun("g", "", " "+Print(`"in g"`)+" ") + "\n" + "g(%s);", "[%s];", Print("[1, 2][%s]"), Print(`"c"`) + "\n" + K["var"] + " w = [%s], z = 2; " + Print("z")}
+	for _, lit := range lits {
+		for _, form := range forms {
+			src := strings.ReplaceAll(form, "%s", lit) + "\n"
+			if c.Mine() {
+				c10Judge(c, &Case{Gen: "end-to-end", Src: src})
+			}
+			if c.Mine() {
+				c10Judge(c, &Case{Gen: "end-to-end-cli", Mode: "cli", Src: src})
+			}
+		}
+	}
 }
 
 func randDigits(r *Rng, n int) string {
@@ -377,6 +400,9 @@ func c10Judge(c *Ctx, cs *Case) {
 	case cs.Mode == "cli":
 		m := RunModel(cs.Src, "", false, 0)
 		ok = cliJudge(c, cs, m) == ""
+	case cs.Gen == "end-to-end":
+		v, _, _ := stdJudge(c, cs, RunOpts{}, JudgeOpts{})
+		ok = v == ""
 	default:
 		ok = c10Literal(c, cs)
 	}
@@ -396,11 +422,11 @@ func c10Judge(c *Ctx, cs *Case) {
 func init() {
 	register(&CheckDef{
 		ID:   "C10",
-		Rule: "exhaustive over all 1,112,064 Unicode scalar values for transliteration and digit classification (this sub-space is fully enumerated); every digit string of length <=4 with every integer/fraction split, the all-Bangla respelling and (length <=3) every script mixture; point shapes (1. 1.x .5 ...); seeded random literals of up to 400 digits: exact midpoints between adjacent doubles and midpoint +-1 in the last place, subnormals, the overflow threshold, 15-17 digit and long literals, each with two random-script respellings; each NUMBER value checked against exact big-rational nearest-even rounding. Non-trivial = distinct literal text (code points: those Unicode classifies as digit/number).",
+		Rule: "exhaustive over all 1,112,064 Unicode scalar values for transliteration and digit classification (this sub-space is fully enumerated); every digit string of length <=4 with every integer/fraction split, the all-Bangla respelling and (length <=3) every script mixture; point shapes (1. 1.x .5 ...); seeded random literals of up to 400 digits: exact midpoints between adjacent doubles and midpoint +-1 in the last place, subnormals, the overflow threshold, 15-17 digit and long literals, each with two random-script respellings; each NUMBER value checked against exact big-rational nearest-even rounding; overflowing literals and digit runs interrupted by 27 invisible / combining / look-alike code points placed in 8 program positions (including ones where the remaining tokens would form a program) run through the whole pipeline in-process and through the binary against the model (status 65, nothing printed). Non-trivial = distinct literal text (code points: those Unicode classifies as digit/number).",
 		Assumptions: []string{"math/big rational arithmetic is exact", "math.Nextafter gives the adjacent doubles"},
 		Run:         c10Run,
 		Judge:       c10Judge,
-		MustCount:   func(c *Ctx) []string { return []string{"gen:codepoint", "digit_codepoints", "foreign_digit_codepoints_rejected", "gen:random-midpoint", "gen:random-subnormal", "gen:random-overflow-threshold", "overflow_literals", "respellings", "cli_runs"} },
+		MustCount:   func(c *Ctx) []string { return []string{"gen:codepoint", "digit_codepoints", "foreign_digit_codepoints_rejected", "gen:random-midpoint", "gen:random-subnormal", "gen:random-overflow-threshold", "overflow_literals", "respellings", "cli_runs", "gen:end-to-end", "gen:end-to-end-cli"} },
 		Exhaustive:  func(string) bool { return false },
 	})
 }
